@@ -252,16 +252,21 @@ func (r *run) fmtArg(fr *frame, verb byte, a iface) sval {
 	return mkStr("<sym>")
 }
 
-// smallConcretize enumerates the value of t if it has at most 16 feasible
-// values in [-8, 1023]; otherwise reports false.
+// smallConcretize returns the value of t if the path condition forces a
+// single value; otherwise reports false (the caller prints a placeholder).
 func (r *run) smallConcretize(t *Term, signed bool) (int64, bool) {
-	i := bvResize(t, 64, signed)
-	lo, hi := -8, 1024
-	if !r.feasibleAll(inRange(i, true, lo, hi)) {
+	v, ok := r.sol.Eval(t)
+	if !ok {
 		return 0, false
 	}
-	k := r.concretize(i, lo, hi)
-	return int64(k), true
+	c := mkBV(t.S.W, v)
+	if !r.feasibleAll(mkEq(t, c)) {
+		return 0, false
+	}
+	if signed {
+		return c.sval(), true
+	}
+	return int64(c.Val), true
 }
 
 // feasibleAll: does pc imply c?
